@@ -2083,7 +2083,8 @@ template< size_t L>
          // aaaccccc\0, insert( 3, 4, 'b')
          // length = 8, L = 10
          // --> aaa____ccc\0
-         std::memmove( &mString[ index + count], &mString[ index], L - index - 1);
+         std::memmove( &mString[ index + count], &mString[ index],
+            L - index - count);
          // --> aaabbbbccc\0
          std::memset( &mString[ index], ch, count);
          mLength = L;
@@ -2133,7 +2134,7 @@ template< size_t L>
          // length = 8, L = 10
          // --> aaa____ccc\0
          std::memmove( &mString[ index + count], &mString[ index],
-            mLength - index + 1);
+            L - index - count);
          // --> aaabbbbccc\0
          std::memcpy( &mString[ index], str, count);
          mLength = L;
